@@ -167,6 +167,10 @@ func (d *Decoder) decodeValue(value reflect.Value) {
 	}
 
 	val := d.decodeValueGeneral(value)
+	if d.err != nil {
+		// kinds that can't be decoded (a plain struct, map, array) are reported, not passed on to the switch below
+		return
+	}
 	if val != nil {
 		value.Set(reflect.ValueOf(val).Convert(value.Type()))
 		return
